@@ -28,6 +28,24 @@ pub fn needles() -> Vec<Value> {
             .iter()
             .map(|s| al::parse(s)),
     );
+    // absent vs null: every object over the keys {a, b} with values {null, 1} - same size, different key
+    // sets; a member that is null is not an absent member
+    for a in [None, Some(Value::Null), Some(json!(1))] {
+        for b in [None, Some(Value::Null), Some(json!(1))] {
+            let mut m = serde_json::Map::new();
+            if let Some(x) = &a {
+                m.insert("a".into(), x.clone());
+            }
+            if let Some(x) = &b {
+                m.insert("b".into(), x.clone());
+            }
+            v.push(Value::Object(m));
+        }
+    }
+    v.push(json!({"id": 7, "name": "x"}));
+    v.push(json!({"id": 7, "nickname": null}));
+    v.push(json!([null]));
+    v.push(json!([null, null]));
     al::dedup(v)
 }
 
@@ -226,4 +244,5 @@ pub fn run(ctx: &mut Ctx) {
         }
     }
     crate::spaces::render_probes(ctx, &["merge", "in"]);
+    crate::spaces::width_probes(ctx);
 }
